@@ -563,12 +563,12 @@ func vQuiescent(c *icall) {
 }
 
 func vEnvSet(c *icall, frozen bool) {
-	c.e.visible(c.st, c.g, Op{Kind: opVAtomic, Universal: true, Write: true, Pos: c.curPos()})
+	c.e.visible(c.st, c.g, Op{Kind: opVAtomic, Objs: []ObjKey{envKey}, Write: true, Pos: c.curPos()})
 	c.st.envFrozen = frozen
 	c.ret(nil)
 }
 
-var envTickID = ObjID{G: 0, N: 0x3ffffff0}
+var envKey = ObjKey{Obj: ObjID{}, P: 0xe7}
 
 func vEnvTick(c *icall) {
 	// the env channel is a static object created on first use
@@ -606,7 +606,11 @@ func vAtomic(c *icall) {
 		}
 	}
 	if c.g.Atomic == 0 {
-		c.e.visible(c.st, c.g, Op{Kind: opVAtomic, Objs: objs, Write: kind >= 1, Universal: kind >= 2, Pos: c.curPos()})
+		op := Op{Kind: opVAtomic, Objs: objs, Write: kind >= 1, Universal: kind == 2, Pos: c.curPos()}
+		if kind == 3 && len(objs) > 0 {
+			op.DynRoot = &Ptr{Obj: objs[0].Obj}
+		}
+		c.e.visible(c.st, c.g, op)
 	}
 	c.g.Atomic++
 	c.ret(nil)
